@@ -18,14 +18,18 @@ ListT(e) == [k |-> "list", e |-> e]
 IntMapT(e) == [k |-> "intmap", e |-> e]
 StrMapT(e) == [k |-> "strmap", e |-> e]
 OtherMapT(e) == [k |-> "othermap", e |-> e]
+\* containers whose keys / indexes are also asked beyond 32 bits (map<i64,..>; any list)
+BigMapT(e) == [k |-> "intmap", e |-> e, big |-> TRUE]
+BigListT(e) == [k |-> "list", e |-> e, big |-> TRUE]
 Fd(id, name, t) == [id |-> id, name |-> name, t |-> t]
 
 cStructs ==
   [V |-> <<Fd(1, "a", Scalar), Fd(2, "b", Scalar)>>,
    W |-> <<Fd(1, "v", StructT("V")), Fd(2, "li", ListT(Scalar)), Fd(64, "mii", IntMapT(Scalar))>>,
    R |-> <<Fd(1, "x", Scalar), Fd(2, "s", StructT("V")), Fd(3, "l", ListT(StructT("V"))),
-           Fd(4, "ss", ListT(Scalar)), Fd(5, "im", IntMapT(StructT("V"))), Fd(6, "sm", StrMapT(StructT("V"))),
-           Fd(7, "em", IntMapT(Scalar)), Fd(8, "bm", OtherMapT(StructT("V"))), Fd(63, "w", StructT("W")),
+           Fd(4, "ss", BigListT(Scalar)), Fd(5, "im", IntMapT(StructT("V"))), Fd(6, "sm", StrMapT(StructT("V"))),
+           Fd(7, "em", IntMapT(Scalar)), Fd(8, "bm", OtherMapT(StructT("V"))), Fd(9, "bi", BigMapT(Scalar)),
+           Fd(63, "w", StructT("W")),
            Fd(64, "y", Scalar), Fd(300, "ll", ListT(ListT(Scalar)))>>,
    N |-> <<Fd(1, "x", Scalar), Fd(-1, "neg", Scalar), Fd(2, "s", StructT("V")), Fd(-2, "ns", StructT("V"))>>]
 
@@ -86,7 +90,7 @@ pAny == <<FA>>
 pSany == <<FN("s"), FA>>
 \* error paths
 eNope == <<FN("nope")>>
-eId9 == <<FI(9)>>
+eId9 == <<FI(10)>>
 eXa == <<FN("x"), FN("a")>>
 eX0 == <<FN("x"), IX(<<EI(0)>>)>>
 eS0 == <<FN("s"), IX(<<EI(0)>>)>>
@@ -121,11 +125,27 @@ nNSa == <<FN("ns"), FN("a")>>
 nNS == <<FN("ns")>>
 aNeg == <<nX, nNeg, nSa, nNSa, nNS>>
 
+\* keys and indexes at and beyond the 32-bit boundary (symbolic, see IntStr in FieldMask.tla; the codes are repeated
+\* here because the alphabets are needed before the INSTANCE statement; ASSUMEd equal below)
+cBig31m == 1000001
+cBig31 == 1000002
+cBig32p2 == 1000003
+cBigNeg == -1000003
+pBI2 == <<FN("bi"), KY(<<EI(2)>>)>>
+pBI31m == <<FN("bi"), KY(<<EI(cBig31m)>>)>>
+pBI31 == <<FN("bi"), KY(<<EI(cBig31)>>)>>
+pBI32 == <<FN("bi"), KY(<<EI(cBig32p2)>>)>>
+pBIgrp == <<FI(9), KY(<<EI(cBig32p2), EI(cBig31)>>)>>
+pSSbig == <<FN("ss"), IX(<<EI(cBig32p2)>>)>>
+aBig == <<pBI2, pBI31m, pBI31, pBI32, pBIgrp, pSSbig, pSS1, pX>>
+
 \* ---- queries ---------------------------------------------------------------
 cIdx == {0, 1, 3}
 cIntKeys == {-1, 0, 1}
+cBigKeys == {2, cBig31m, cBig31, cBig32p2, cBigNeg}
+IsBig(ty) == "big" \in DOMAIN ty
 cStrKeys == {"a", "b", "z"}
-ExtraIds(sn) == IF sn = "R" THEN {0, 9, 32767} ELSE IF sn = "N" THEN {} ELSE {9}
+ExtraIds(sn) == IF sn = "R" THEN {0, 10, 32767} ELSE IF sn = "N" THEN {} ELSE {9}
 
 RECURSIVE Positions(_)
 Positions(ty) ==
@@ -134,8 +154,8 @@ Positions(ty) ==
          UNION {{<<St("f", cStructs[ty.name][i].id, "")>> \o p : p \in Positions(cStructs[ty.name][i].t)} :
                 i \in 1..Len(cStructs[ty.name])}
          \cup {<<St("f", u, "")>> : u \in ExtraIds(ty.name)}
-    [] ty.k = "list" -> {<<St("i", i, "")>> \o p : i \in cIdx, p \in Positions(ty.e)}
-    [] ty.k = "intmap" -> {<<St("i", i, "")>> \o p : i \in cIntKeys, p \in Positions(ty.e)}
+    [] ty.k = "list" -> {<<St("i", i, "")>> \o p : i \in (IF IsBig(ty) THEN cIdx \cup {cBig32p2} ELSE cIdx), p \in Positions(ty.e)}
+    [] ty.k = "intmap" -> {<<St("i", i, "")>> \o p : i \in (IF IsBig(ty) THEN cBigKeys ELSE cIntKeys), p \in Positions(ty.e)}
     [] ty.k = "strmap" -> {<<St("s", 0, s)>> \o p : s \in cStrKeys, p \in Positions(ty.e)}
     [] OTHER -> {<<St("i", 0, "")>> \o p : p \in Positions(ty.e)}
 cWalks == SetToSeq(Positions(RootTy0))
@@ -158,7 +178,7 @@ qLL00 == <<FN("ll"), IX(<<EI(0)>>), IX(<<EI(0)>>)>>
 cPimsR == <<pX, pXid, pS, pSa, pSb, pL0, pL1, pLs, pL0a, pL1b, pLsa, pSS1, pSSs, pIM0, pIM1a, pIMs, pIMsb, pSMa, pSMsa,
             pEM1, pBMsa, pWva, pWli0, pWmii1, pY, pLL01, pLL, pRoot, pAny, pSany,
             qL3, qL0b, qIM1, qIM1b, qIMsa, qSMz, qSMaa, qW, qWv, qWvb, qLL0, qLL00,
-            eNope, eId9>>
+            pBI2, pBI32, eNope, eId9>>
 cPimsN == <<nX, nNeg, nSa, nNSa>>
 
 
@@ -171,6 +191,7 @@ cAlphabet == CASE AlphabetName = "aFull" -> aFull
                [] AlphabetName = "aSmall" -> aSmall
                [] AlphabetName = "aTiny" -> aTiny
                [] AlphabetName = "aNeg" -> aNeg
+               [] AlphabetName = "aBig" -> aBig
 cPims == IF PimsName = "cPimsN" THEN cPimsN ELSE cPimsR
 INSTANCE FieldMask WITH Structs <- cStructs, Root <- RootName, Alphabet <- cAlphabet, Walks <- cWalks, Pims <- cPims,
                         StrOrder <- cStrOrder
@@ -180,7 +201,7 @@ cAlphaDen == [i \in 1..Len(cAlphabet) |-> Denote(cAlphabet[i], RootTy0)]
 cPimsDen == [i \in 1..Len(cPims) |-> Denote(cPims[i], RootTy0)]
 
 ----------------------------------------------------------------------------
-WalkStep(s) == IF s.k = "s" THEN <<"s", s.s>> ELSE <<s.k, ToString(s.n)>>
+WalkStep(s) == IF s.k = "s" THEN <<"s", s.s>> ELSE <<s.k, IntStr(s.n)>>
 
 \* printed once: the concrete strings and the query set the cases refer to
 Meta == LET W == cWalks
@@ -191,7 +212,9 @@ Meta == LET W == cWalks
            single |-> [i \in 1..Len(A) |-> cAlphaDen[i].e],
            walks |-> [i \in 1..Len(W) |-> [j \in 1..Len(W[i]) |-> WalkStep(W[i][j])]],
            pims |-> [i \in 1..Len(P) |-> Render(P[i])],
+           bigints |-> [c \in {cBig31m, cBig31, cBig32p2, cBigNeg} |-> IntStr(c)],
            structs |-> cStructs]
+ASSUME cBig31m = Big31m /\ cBig31 = Big31 /\ cBig32p2 = Big32p2 /\ cBigNeg = BigNeg
 ASSUME PrintT("META " \o ToJson(Meta))
 
 Emit ==
